@@ -1,3 +1,4 @@
+import Fpdec.Kernels.Round
 import Fpdec.Lemmas.Rounding
 import Fpdec.Lemmas.IntTy
 import Fpdec.Props.C05_Sites
@@ -240,5 +241,16 @@ example : round Profile.dev .heven ⟨25, 1⟩ 0 = .ok ⟨2, 0⟩ ∧ round Prof
 example : round Profile.release .up ⟨1, 0⟩ (-39) = .panic .overflow ∧ checkedRound Profile.dev .up ⟨1, 0⟩ (-39) = .ok none := by
   decide
 example : round Profile.dev .floor ⟨-29999, 3⟩ (-37) = .ok ⟨-(10 : Int) ^ 37, 0⟩ := by decide
+
+/-! ### translated kernels
+The Lean definitions `Gen.K.*` are regenerated from the Rust source on every run by `tools/fpkernels.py` (expression-level
+translation).  These theorems tie them to the hand-written model the property theorems above are about: a change of the Rust
+kernel that changes its translation breaks them. -/
+theorem kernel_i128_div_mod_floor (prof : Profile) (x y : Int) :
+    Gen.K.i128_div_mod_floor prof x y = i128DivModFloor prof x y := Kernels.i128_div_mod_floor_eq prof x y
+theorem kernel_round_quot (prof : Profile) (tm : Mode) (quot : Int) (rem divisor : Nat) (mode : Option Mode)
+    (hq : fitsI128 quot = true) :
+    Gen.K.round_quot prof tm quot rem divisor mode = .ok (roundQuot tm quot rem divisor mode) :=
+  Kernels.round_quot_eq prof tm quot rem divisor mode hq
 
 end Fpdec.Props.C05
